@@ -1351,3 +1351,6 @@ func (h *MyHost) AddRelay(t Txn, recvAt time.Time) {
 
 // ProcCut reports (world lock held) whether proc cannot reach target's server over the network.
 func (w *MyWorld) ProcCut(proc, target string) bool { return w.procCut(proc, target) }
+
+// HasExecuted reports whether the host has executed uuid:gno.
+func (h *MyHost) HasExecuted(uuid string, gno int64) bool { return gsHas(h.Executed, uuid, gno) }
